@@ -6,6 +6,7 @@
   not save and restore exactly the four state words.
 -/
 import Vita.C07.Lemmas
+import Vita.C07.StreamLemmas
 import Vita.C07.Gen
 namespace Vita.C07
 open Vita.Rng
@@ -67,7 +68,72 @@ theorem seed_deterministic (s : UInt64) (n : Nat) : (Xo.seed s).take n = (Xo.see
 /-- `seed(0)` selects the default seed (as `xoshiro256ss::seed` does). -/
 theorem seed_zero_default : Xo.seed 0 = Xo.seed Xo.defSeed := by decide
 
+/-! ### the same, under every stream configuration the property demands
+
+`Cfg` = formatting state + numpunct facet of the stream the engine is written to and read from
+(Vita/C07/Stream.lean: libstdc++'s `num_put` / `num_get` for `unsigned long`, incl. thousands separators
+and `__verify_grouping`).  `Demanded c`: decimal, `skipws` on, padding (if a width is pending) made of
+white space, and – when the imbued locale groups digits – a thousands separator that is neither a digit
+nor white space.  Any width, adjustment, showbase/uppercase/showpos, any grouping string, any such
+separator. -/
+
+/-- **cfg_state_roundtrip**: written with the code's `operator<<` to a stream in configuration `c` and read
+    back with the code's `operator>>` from the same stream, every state is restored exactly and the
+    stream stays good – for every demanded configuration, every state, every receiving engine. -/
+theorem cfg_state_roundtrip (c : Cfg) (h : Demanded c) (a b : Xo) :
+    saveRestoreC c Gen.writeItems Gen.readIdx a b = some (a, true) := by
+  rw [gen_write, gen_read]; exact cfg_roundtrip_good c h a b
+
+/-- … and the restored engine continues with the same sequence of numbers, forever. -/
+theorem cfg_stream_after_roundtrip (c : Cfg) (h : Demanded c) (a b : Xo) :
+    ∃ r, saveRestoreC c Gen.writeItems Gen.readIdx a b = some (r, true) ∧ ∀ n, r.nth n = a.nth n :=
+  ⟨a, cfg_state_roundtrip c h a b, fun _ => rfl⟩
+
+/-- the classic configuration (what the first model fixed) is demanded -/
+theorem classic_demanded : Demanded Cfg.classic := by decide
+
+/-- in the classic configuration the configuration-aware writer is the writer of `Model.lean` -/
+theorem put_classic (items : List Item) (e : Xo) : putState Cfg.classic items 0 e = writeState items e := by
+  induction items with
+  | nil => rfl
+  | cons it r ih =>
+    cases it with
+    | st i =>
+      simp only [putState, writeState, ih]
+      split
+      · congr 1
+      · rfl
+    | ch c =>
+      simp only [putState, writeState, ih]
+      congr 1
+
+/-- Each hypothesis of `Demanded` is needed – witnesses in the model (the compiled library agrees, see the
+    `cfgrt` requests of the differential run): with `skipws` cleared, with a non-blank fill character
+    and a pending width, with a blank as thousands separator, the SAME text is not read back. -/
+theorem noskipws_witness :
+    saveRestoreC { skipws := false } goodItems goodIdx ⟨1, 2, 3, 4⟩ ⟨9, 9, 9, 9⟩ = some (⟨1, 0, 9, 9⟩, false) := by
+  decide
+theorem fill_witness :
+    saveRestoreC { width := 3, fill := '*', adjust := 1 } goodItems goodIdx ⟨1, 2, 3, 4⟩ ⟨9, 9, 9, 9⟩
+      = some (⟨0, 9, 9, 9⟩, false) := by
+  decide
+theorem fill_digit_witness :   -- silently wrong: no failbit, another state
+    saveRestoreC { width := 3, fill := '7', adjust := 1 } goodItems goodIdx ⟨1, 2, 3, 4⟩ ⟨9, 9, 9, 9⟩
+      = some (⟨771, 2, 3, 4⟩, true) := by
+  decide
+theorem blank_separator_witness :
+    saveRestoreC { facet := true, sep := ' ', grouping := [3] } goodItems goodIdx ⟨1, 222, 333, 444⟩ ⟨9, 9, 9, 9⟩
+      = some (⟨1222333444, 9, 9, 9⟩, false) := by
+  decide
+
 /-! ### non-vacuity -/
+example : Demanded { facet := true, sep := ',', grouping := [3], width := 30, fill := ' ', adjust := 2,
+                     showbase := true, showpos := true } := by decide
+example : putState { facet := true, sep := ',', grouping := [3, 2] } Gen.writeItems 0
+      ⟨1, 20000, 0, 18446744073709551615⟩ = some "1 20,000 0 1,84,46,74,40,73,70,95,51,615".toList := by decide
+example : saveRestoreC { facet := true, sep := '.', grouping := [3], width := 12, adjust := 1 }
+      Gen.writeItems Gen.readIdx ⟨1234567, 20, 0, 18446744073709551615⟩ ⟨9, 9, 9, 9⟩
+    = some (⟨1234567, 20, 0, 18446744073709551615⟩, true) := by decide
 example : writeState Gen.writeItems ⟨1, 20, 0, 18446744073709551615⟩ =
     some "1 20 0 18446744073709551615".toList := by decide
 example : readState Gen.readIdx ⟨9, 9, 9, 9⟩ "1 20 0 18446744073709551615".toList false =
